@@ -103,3 +103,27 @@ def r19_sibling(chk, rule="R19-sibling"):
                 if tuple(seq[1:]) != want[1:]:
                     chk.add(Finding(rule, "%s::%s::%s" % (rule, fid, ",".join(str(x) for x in seq)), "%s calls the generated item parser with (%s); the generated parsers expect (data, uid, start_offset, end_offset): offsets end up swapped, so storing and writing the value moves /begin and /end" % (fid, ", ".join(str(x) for x in seq)), where))
     chk.rule(rule, "typed-access helpers passing (data, uid, start_offset, end_offset) in the generated parsers' order", n, floor=2)
+    # the item parser's Result is propagated: an item that does not decode makes the whole load fail (no value), it is not skipped
+    np = 0
+    for fid in ("a2ml::GenericIfData::get_single_optitem", "a2ml::GenericIfData::get_multiple_optitems"):
+        cands = [x for x in prog.bodies if mir.strip_generics(x) == fid]
+        if not cands:
+            continue
+        b0 = prog.bodies[cands[0]]
+        bodies = [b0] + [c for c in prog.bodies.values() if c.kind == "Closure" and c.parent and c.parent.startswith(b0.id)]
+        for bb in bodies:
+            for bi, blk in enumerate(bb.blocks):
+                t = blk["t"]
+                if not (t["k"] == "call" and t.get("res") is None and len(t["args"]) == 4):
+                    continue
+                np += 1
+                d = t["dest"]["l"]
+                users = []
+                for bj, t2 in bb.calls():
+                    if any((mir.op_place(a) or {}).get("l") == d for a in t2["args"]):
+                        users.append(mir.strip_generics((t2.get("res") or "").lstrip("?")))
+                if bb.kind == "Closure" and not users:
+                    users = ["returned from a closure"]
+                if not users or not all(u.endswith("Try>::branch") or u.endswith("Try::branch") for u in users):
+                    chk.add(Finding("R19-prop", "R19-prop::%s::%s" % (fid, ",".join(sorted(set(u.split("::")[-1] for u in users)) or ["dropped"])), "%s does not propagate the item parser's error with `?` (result goes to %s): a tagged item whose content does not match the specification is silently left out instead of making load_from_ifdata return no value" % (fid, sorted(set(users)) or "nothing"), bb.where(t["ln"])))
+    chk.rule("R19-prop", "calls of the generated item parser in the typed-access helpers whose Result is propagated with `?`", np, floor=2)
